@@ -289,12 +289,20 @@ def pred_history(real_out, calls_json, truth_json):
     last_heard = {}
     seen_adsb = set()
     states = real_out.split(";")
+    prev_rows = set()
     for (tnow, adsb, commb), st in zip(calls, states):
         for t, m in adsb:
             key = m[2:8].upper()
-            last_heard[key] = t
+            last_heard[key] = max(last_heard.get(key, t), t)
             seen_adsb.add(key)
         rows = {} if st == "-" else dict(r.split("=") for r in st.split("&"))
+        # a Comm-B reply from an aircraft that was listed when the call began is "hearing" it too
+        for t, m in commb:
+            b = bits_of(int(m, 16), 112)
+            key = "%06X" % (spec.parity_of_data(b[:88]) ^ spec.val_of(b[88:]))
+            if key in prev_rows and key in last_heard:
+                last_heard[key] = max(last_heard[key], t)
+        prev_rows = set(rows)
         for t, m in commb:
             # address of a DF20/21 reply: parity overlay (independent computation)
             b = bits_of(int(m, 16), 112)
